@@ -1,4 +1,4 @@
 INIT GenInit
 NEXT GenNext
-CONSTANTS MaxFull = 3 MaxLen = 4
+CONSTANTS MaxFull = 3 MaxLen = 4 Part = 0 NParts = 1
 CHECK_DEADLOCK FALSE
